@@ -50,8 +50,10 @@ pub fn node_name(i: usize) -> String {
 /// Names made of 'a', 'b' and separator characters, in shortlex order shuffled by a bijection:
 /// "a", "-", "a-b", "b-a-", "a b" ... Concatenating two of them with a separator is ambiguous
 /// ("a" + "-" + "b-a" == "a-b" + "-" + "a"), which is what breaks keys built by string formatting.
-pub fn separator_name(i: usize, sep: char) -> String {
-    let k = (i * 101 + 17) % 363;
+pub fn separator_name(i: usize, sep: char, n: usize) -> String {
+    // use the shortest strings that suffice for n nodes (short names collide most), shuffled
+    let (m, mult) = if n <= 12 { (12, 5) } else if n <= 39 { (39, 7) } else if n <= 120 { (120, 7) } else { (363, 101) };
+    let k = (i * mult + 3) % m;
     // k-th non-empty string over a 3-letter alphabet in shortlex order
     let alphabet = ['a', 'b', sep];
     let mut len = 1;
@@ -72,11 +74,11 @@ pub fn separator_name(i: usize, sep: char) -> String {
 }
 
 /// the name of node `i` under the naming style selected by the case's `perm` field
-pub fn styled_name(i: usize, perm: u32) -> String {
+pub fn styled_name(i: usize, perm: u32, n: usize) -> String {
     match perm % 8 {
-        5 => separator_name(i, '-'),
-        6 => separator_name(i, ','),
-        7 => separator_name(i, ' '),
+        5 | 4 => separator_name(i, '-', n),
+        6 => separator_name(i, ',', n),
+        7 => separator_name(i, ' ', n),
         _ => node_name(i),
     }
 }
@@ -258,7 +260,7 @@ impl GraphCase {
             multi: s.multi,
             loops: s.loops,
             n,
-            names: (0..n).map(|i| styled_name(i, self.perm)).collect(),
+            names: (0..n).map(|i| styled_name(i, self.perm, n)).collect(),
             order: permutation(self.perm, n),
             edges,
             weighted: self.wmode != 0,
